@@ -160,9 +160,10 @@ pub fn slot_alphabet() -> Vec<Vec<DefForm>> {
         vec![StoreSp(-8, A)],
         vec![LoadSp(A, -8)],
         vec![Deref(A, A)],
-        vec![MulC(A, A, 4)],
-        // 8
         vec![AndC(A, A, 0xff)],
+        // 8
+        vec![Const(A, -1024)],
+        vec![MulC(A, A, 4)],
         vec![Const(A, 5)],
         vec![AddC(A, A, -1)],
         vec![Deref(A, D)],
@@ -203,8 +204,12 @@ pub fn slot_alphabet() -> Vec<Vec<DefForm>> {
         vec![AddC(A, A, 4)],
         vec![Const(A, 1024)],
         vec![Const(A, 1023)],
+        vec![AddC(SP, SP, -16)],
+        vec![AddC(SP, SP, 16)],
+        vec![AddC(SP, SP, -16), StoreSp(8, A)],
+        vec![Const(A, -2000)],
     ];
-    // every ordered pair of the eight non-empty core defs, then a curated list of further pairs
+    // every ordered pair of the first eight non-empty forms, then a curated list of further pairs
     let core: Vec<DefForm> = v[1..=8].iter().map(|f| f[0]).collect();
     for a in &core {
         for b in &core {
@@ -269,7 +274,7 @@ pub fn cond_alphabet() -> Vec<CondForm> {
     v.push(Direct(BinOpType::IntSLessEqual, ad.0, ad.1));
     v.push(NotFlag);
     // 26
-    for (l, r) in [(Opd::R(D), Opd::C(0)), (Opd::R(A), Opd::C(1024)), (Opd::R(D), Opd::R(S)), (Opd::R(A), Opd::C(-1)), (Opd::C(5), Opd::R(A)), (Opd::R(A), Opd::C(0))] {
+    for (l, r) in [(Opd::R(D), Opd::C(0)), (Opd::R(A), Opd::C(1023)), (Opd::R(D), Opd::R(S)), (Opd::R(A), Opd::C(-1)), (Opd::C(5), Opd::R(A)), (Opd::R(A), Opd::C(0))] {
         for op in CMPS {
             v.push(Direct(op, l, r));
         }
@@ -308,12 +313,12 @@ pub fn skeleton_sizes(level: u32, s: usize) -> (usize, usize, usize, usize) {
     const ALL: usize = usize::MAX;
     if level == 0 {
         match s {
-            0 => (46, 0, 0, 0),
-            1 => (8, 3, 17, 0),
+            0 => (50, 0, 0, 0),
+            1 => (9, 3, 17, 0),
             2 => (16, 3, 17, 0),
-            3 => (8, 3, 17, 0),
-            4 => (8, 0, 17, 3),
-            _ => (7, 3, 17, 3),
+            3 => (9, 3, 17, 0),
+            4 => (9, 0, 17, 3),
+            _ => (8, 3, 17, 3),
         }
     } else {
         match s {
